@@ -40,6 +40,12 @@ func main() {
 	}
 	c := an.NewCtx(*prop, *tier, seed, *repo, *verif)
 	code := run(c, p)
+	if *tier == "thorough" && os.Getenv("ONTOCHECK_NO_SELFTEST") == "" {
+		// sensitivity self-test on scratch copies (never touches repo or verif/seeded)
+		if res := runMutants(*prop, *repo, *verif); len(res) > 0 {
+			mergeMutantsIntoEvidence(*verif+"/evidence/"+*prop+".json", res)
+		}
+	}
 	os.Exit(code)
 }
 
